@@ -281,7 +281,9 @@ pub fn run_cases<P: Property>(p: &P, seed: u64, tier: Tier, count: u64, known: &
     let log_events = std::env::var("VERIF_EVENT_LOG").is_ok();
     std::thread::scope(|scope| {
         for _ in 0..worker_count() {
-            scope.spawn(|| {
+            // simulated executions are recursive (nested joins, nested helping): give the
+            // workers a deep stack (address space only; touched pages are what counts)
+            let _ = std::thread::Builder::new().stack_size(1 << 28).spawn_scoped(scope, || {
                 let mut local: Batch<P::Case> = Batch::new();
                 loop {
                     // blocks of indices keep contention on the counter negligible
